@@ -52,6 +52,7 @@ struct Geometry {
   std::string name;
   double side[3];   // in `unit`
   std::string unit; // "m" or "pc"
+  int ncell[3] = {6, 6, 6}; // cells per axis of the whole grid
   bool cubic() const { return side[0] == side[1] && side[1] == side[2]; }
   double side_m(int i) const { return side[i] * (unit == "pc" ? PARSEC : 1.); }
 };
@@ -61,7 +62,6 @@ struct Layout {
   std::string name() const { return fmt("%dx%dx%d", nsub[0], nsub[1], nsub[2]); }
 };
 
-static const int NCELL = 6; // cells per axis of the whole grid
 
 struct Config {
   Geometry geo;
@@ -70,6 +70,11 @@ struct Config {
   // derived at run time
   bool inv_differs = false; // n/s != 1/(s/n) on some axis
   std::string inv_detail;
+  // association orders of derived cell quantities: bit i set = pair i disagrees
+  // 0: (dx*dy)*dz vs dx*(dy*dz)   1: (dx*dy)*dz vs (dx*dz)*dy   2: dx*(dy*dz) vs (dx*dz)*dy
+  // 3: 1/V vs (1/dx)*(1/dy)*(1/dz) (any order)   4: area x size vs V/size relations
+  unsigned assoc_pairs = 0;
+  std::string assoc_detail;
   bool chains = false;
   // set from the 'none' configuration of the same group
   double dt1 = 0.;       // first time step
@@ -92,7 +97,8 @@ struct Config {
     return s;
   }
   std::string inv_class() const {
-    return inv_differs ? "non-dyadic-cell-size" : "exact-inverse-cell-size";
+    return std::string(inv_differs ? "non-dyadic-cell-size" : "exact-inverse-cell-size") +
+           ((assoc_pairs & 7u) ? "+non-associative-cell-products" : "");
   }
   std::string key_suffix() const {
     return inv_class() + (comps ? ":" + comp_name() : std::string());
@@ -102,9 +108,9 @@ struct Config {
   }
   std::string json(const std::string &extra = "") const {
     return fmt("{\"geometry\": \"%s\", \"sides\": [\"%a\", \"%a\", \"%a\"], \"unit\": \"%s\", "
-               "\"layout\": \"%s\", \"components\": %u%s}",
-               geo.name.c_str(), geo.side[0], geo.side[1], geo.side[2], geo.unit.c_str(),
-               lay.name().c_str(), comps, extra.c_str());
+               "\"cells\": [%d, %d, %d], \"layout\": \"%s\", \"components\": %u%s}",
+               geo.name.c_str(), geo.side[0], geo.side[1], geo.side[2], geo.unit.c_str(), geo.ncell[0],
+               geo.ncell[1], geo.ncell[2], lay.name().c_str(), comps, extra.c_str());
   }
 };
 
@@ -136,7 +142,7 @@ static void anchor_of(const Geometry &g, double *a) {
 static double min_cell_m(const Geometry &g) {
   double m = 1e300;
   for (int i = 0; i < 3; ++i)
-    m = std::min(m, g.side_m(i) / NCELL);
+    m = std::min(m, g.side_m(i) / g.ncell[i]);
   return m;
 }
 
@@ -182,7 +188,7 @@ static std::string param_text(const Config &c) {
   const double T = total_time(g);
   std::string t = FIXED_RATES;
   t += "DensityFunction:\n  type: BlockSyntax\n  filename: blocks.yml\n";
-  t += fmt("DensityGrid:\n  number of cells: [%d, %d, %d]\n", NCELL, NCELL, NCELL);
+  t += fmt("DensityGrid:\n  number of cells: [%d, %d, %d]\n", g.ncell[0], g.ncell[1], g.ncell[2]);
   t += fmt("DensitySubGridCreator:\n  number of subgrids: [%d, %d, %d]\n  periodicity: [%s, false, false]\n",
            c.lay.nsub[0], c.lay.nsub[1], c.lay.nsub[2], px ? "true" : "false");
   t += "DensityGridWriter:\n  type: Gadget\n  padding: 3\n  prefix: snap_\n";
@@ -202,7 +208,7 @@ static std::string param_text(const Config &c) {
     pos[i] = a[i] + 0.6 * g.side[i];
   if (c.comps & COMP_SN) {
     // explodes after step 3; energy ~ 20 x thermal energy of one cell
-    const double vcell = (g.side_m(0) / NCELL) * (g.side_m(1) / NCELL) * (g.side_m(2) / NCELL);
+    const double vcell = (g.side_m(0) / g.ncell[0]) * (g.side_m(1) / g.ncell[1]) * (g.side_m(2) / g.ncell[2]);
     const double ecell = 1.5 * 2. * 1.e8 * 1.380649e-23 * 8000. * vcell;
     const double lifetime = 0.5 * (c.t_end_step2 + c.t_end_step3);
     t += "PhotonSourceDistribution:\n  type: SingleSupernova\n  position: " + vec3(pos, g.unit) +
@@ -520,7 +526,7 @@ static bool judge_leg(Ctx &ctx, Tally &tl, const Config &c, const RefData &rd, c
                          "uninterrupted run: %s(first difference in the %s; dump size %zu, seed field at %zu); %s",
                          c.label().c_str(), to, from, history.c_str(), dd.text().c_str(),
                          where_in_dump(dd.first, rd.info[to].seed_offset, ref.size()).c_str(), ref.size(),
-                         rd.info[to].seed_offset, c.inv_detail.c_str()),
+                         rd.info[to].seed_offset, (c.inv_detail + "; " + c.assoc_detail).c_str()),
                      replay);
   } else if (!dd.seed_ok) {
     good = false;
@@ -746,11 +752,13 @@ static void classify(Config &c, const std::string &dir) {
   const Box<> box = sb.get_box();
   c.inv_differs = false;
   c.inv_detail = "";
+  double d[3];
   for (int i = 0; i < 3; ++i) {
     const int_fast32_t nsub = c.lay.nsub[i];
-    const int_fast32_t ncell = NCELL / c.lay.nsub[i];
+    const int_fast32_t ncell = c.geo.ncell[i] / c.lay.nsub[i];
     const double s = box.get_sides()[i] / nsub; // DensitySubGridCreator::_subgrid_sides
     const double cell = s / ncell;               // DensitySubGrid::_cell_size
+    d[i] = cell;
     const double inv_ctor = ncell / s;           // DensitySubGrid(box, ncell)
     const double inv_restart = 1. / cell;        // DensitySubGrid(RestartReader&)
     if (inv_ctor != inv_restart) {
@@ -761,6 +769,29 @@ static void classify(Config &c, const std::string &dir) {
   }
   if (!c.inv_differs)
     c.inv_detail = "n/s == 1/(s/n) on all axes";
+  // derived quantities: the code computes V = (dx*dy)*dz, areas dy*dz, dx*dz,
+  // dx*dy and 1/V; any recomputation in another association order is
+  // bit-identical only where these agree
+  {
+    const double v1 = (d[0] * d[1]) * d[2], v2 = d[0] * (d[1] * d[2]), v3 = (d[0] * d[2]) * d[1];
+    c.assoc_pairs = 0;
+    if (v1 != v2)
+      c.assoc_pairs |= 1u;
+    if (v1 != v3)
+      c.assoc_pairs |= 2u;
+    if (v2 != v3)
+      c.assoc_pairs |= 4u;
+    const double i1 = 1. / v1;
+    const double ix = 1. / d[0], iy = 1. / d[1], iz = 1. / d[2];
+    if (i1 != (ix * iy) * iz || i1 != ix * (iy * iz) || i1 != (ix * iz) * iy)
+      c.assoc_pairs |= 8u;
+    if (v1 / d[0] != d[1] * d[2] || v1 / d[1] != d[0] * d[2] || v1 / d[2] != d[0] * d[1])
+      c.assoc_pairs |= 16u;
+    c.assoc_detail = fmt("cell %a x %a x %a: (dx*dy)*dz = %a, dx*(dy*dz) = %a, (dx*dz)*dy = %a; 1/V %s product of "
+                         "inverse sizes; V/size %s face areas",
+                         d[0], d[1], d[2], v1, v2, v3, (c.assoc_pairs & 8u) ? "!=" : "==",
+                         (c.assoc_pairs & 16u) ? "!=" : "==");
+  }
   unlink((dir + "/classify.param").c_str());
   unlink((dir + "/classify.param.used-values").c_str());
 }
@@ -828,6 +859,59 @@ int main(int argc, char **argv) {
     }
   }
   geos.push_back({"anisotropic-box", {2., 3., 2.512}, "pc"});
+  // anisotropic boxes whose derived cell quantities depend on the association
+  // order: chosen from a candidate list until every pair of orders of
+  // dx*dy*dz disagrees on some chosen geometry and at least two are chosen
+  unsigned n_assoc = 0, pairs_covered = 0;
+  {
+    std::vector< Geometry > cand;
+    auto add = [&](double x, double y, double z, int nx, int ny, int nz) {
+      Geometry g{fmt("%gx%gx%gm-%dx%dx%d", x, y, z, nx, ny, nz), {x, y, z}, "m"};
+      g.ncell[0] = nx;
+      g.ncell[1] = ny;
+      g.ncell[2] = nz;
+      cand.push_back(g);
+    };
+    add(1., 1., 2., 10, 10, 12);
+    const double sv[] = {0.7, 0.9, 1.1, 1.3, 1.7, 3.};
+    for (double x : sv)
+      for (double y : sv)
+        for (double z : sv)
+          if (!(x == y && y == z))
+            add(x, y, z, 6, 6, 6);
+    add(1.1, 0.7, 0.9, 8, 8, 8);
+    const size_t rot2 = cand.size() > 1 ? 1 + (size_t)(A.seed % (long)(cand.size() - 1)) : 0;
+    for (size_t i = 0; i < cand.size() && (n_assoc < 2 || (pairs_covered & 7u) != 7u) && n_assoc < 3; ++i) {
+      // the first candidate (the 1x1x2 m / 10x10x12 box) is always looked at first
+      const Geometry &g = cand[i == 0 ? 0 : 1 + (i - 1 + rot2 - 1) % (cand.size() - 1)];
+      unsigned all = 7u, any = 0;
+      for (auto &l : layouts) {
+        Config c;
+        c.geo = g;
+        c.lay = l;
+        classify(c, g_base);
+        all &= c.assoc_pairs;
+        any |= c.assoc_pairs;
+      }
+      if ((any & 7u) == 0)
+        continue;
+      // take it if it adds a pair of orders not yet seen to disagree, or if
+      // fewer than two are chosen
+      if (n_assoc < 2 || (all & ~pairs_covered & 7u)) {
+        geos.push_back(g);
+        ++n_assoc;
+        pairs_covered |= all;
+      }
+    }
+  }
+  R.set("geometries_with_non_associative_cell_products", n_assoc);
+  R.set("product_order_pairs_covered_bitmask", pairs_covered & 7u);
+  if (n_assoc < 2) {
+    R.violation("C09:geometry-alphabet-incomplete",
+                fmt("need two anisotropic boxes for which (dx*dy)*dz, dx*(dy*dz), (dx*dz)*dy do not all agree, found %u",
+                    n_assoc));
+    return R.finish(A);
+  }
   R.set("geometries_inverse_differs_on_all_layouts", n_diff_all);
   R.set("geometries_inverse_equal_on_all_layouts", n_equal_all);
   if (n_diff_all < 2 || n_equal_all < 2) {
